@@ -4,6 +4,9 @@ Mode D (complete product): fit type x uncertainty configuration x data region x 
 plus two smaller complete products: the cost-function dimension (every built-in Poisson-type cost function x {without, with} a declared
 source, the Gaussian likelihoods with a source; cost given by name and as an object) x data region x panel, and the plotted-object
 dimension (a MultiFit of two members {without, with} a common parameter instead of a list of fits) x fit type x member configuration x option,
+and the model-function dimension (how the two fits of one plot come by their model function: separate functions as everywhere else / the
+same Python function handed to both fits / one ModelFunctionBase-derived object handed to both fits, also as members of a MultiFit) x fit
+type x uncertainty configuration x option,
 (data region: all values positive and inside the range / one zero count or empty bin / histogram entries outside the bin range /
 histogram model given as counts, density=False),
 each executed on the real kafe2.Plot (Agg backend) after do_fit().  The matplotlib artists of Plot.axes are read back
@@ -30,7 +33,9 @@ RULE = (
     "containers, model lines / bars / steps, bands, ratio / residual / pull panels, figure legend) is read back and compared; a "
     "configuration is non-trivial when at least one error bar has non-zero length, a panel or a band is drawn, or two fits share the plot; "
     "when the plotted object is a MultiFit the members are fitted through it only, every member is compared like a single fit and the "
-    "legend block of every member additionally with the MultiFit's results (parameter values / uncertainties by name, global lines)"
+    "legend block of every member additionally with the MultiFit's results (parameter values / uncertainties by name, global lines); "
+    "when two fits of different data use one model function (the same Python function / one shared model function object) every fit is "
+    "still compared with its own numbers, the legend blocks of equal function name are taken in the order of the fits"
 )
 ASSUMPTIONS = [
     "the cost functions that 'imply Poisson statistics' are the Poisson likelihood, the Poisson likelihood ratio and the Gauss approximation of the Poisson likelihood (however they are specified: by name or as a cost function object); chi2 and the Gaussian likelihood / likelihood ratio do not: their bars show the declared sources only",
@@ -38,6 +43,7 @@ ASSUMPTIONS = [
     "separate figures of a MultiFit with asymmetric errors: the legend of the first figure re-minimises the whole MultiFit (see the assumption on asymmetric errors), so the members of the later figures are drawn at, and compared with, the parameters the plotted MultiFit has after the plot call instead of those of the never-plotted twin",
     "an uncertainty source declared on the MultiFit for all members belongs to the total pointwise uncertainty of every member (error bars, ratio / residual bars, pull denominators)",
     "the association artist -> (fit index, subplot type) is taken from the documented return value of Plot.plot() and every such artist is verified to be a child of the corresponding axes in Plot.axes",
+    "legend blocks of fits whose model functions have the same name stand in the order of the fits on the plot (blocks of different function names are told apart by the name)",
     "pull panels are only requested when every point of the fit has a non-zero pointwise y uncertainty (a pull without uncertainty is undefined: no source at all, or a zero value whose only uncertainty is the Poisson term or a source relative to the data); ratio / residual / pull of an unbinned fit must be rejected with TypeError (no y data)",
     "a point whose total y uncertainty is zero (a zero count under pure Poisson statistics, a zero value with data-relative y sources only) has an error bar of zero length; the bars of the other points are the statement's 'total pointwise uncertainties' regardless",
     "the histogram model is scaled to the number of entries of the container including underflow and overflow (HistContainer.n_entries; the model bars are compared with exactly that); for unequal bin widths, where the scale of the density curve is left open, the factor per entry is still required to be the one of the same binning without entries outside the range (curve and bars are scaled to the same number of entries)",
@@ -89,12 +95,19 @@ ROLESETS = {"quick": ("A", "AB"), "thorough": ("A", "AB", "BA", "B")}
 COST_ROLESETS = {"quick": ("AB",), "thorough": ROLESETS["thorough"]}
 # the plotted object is a MultiFit: of two members without a common parameter (A, B) and of two members that share one (A, C)
 MULTI_ROLESETS = ("m:AB", "m:AC")
+# two fits of different data on one plot that use ONE model function: the same Python function handed to both fits ('f:') / one model
+# function object handed to both fits ('o:'); role D = the model function of role A on the data of role B
+# ('mf:' / 'mo:': the plotted object is a MultiFit of these two fits, all of whose parameters are then common to both members)
+SHARE_ROLESETS = {"quick": ("f:AD", "o:AD", "mo:AD"), "thorough": ("f:AD", "o:AD", "f:DA", "o:DA", "mf:AD", "mo:AD")}
+_SHARE_PREFIX = {"f": "function", "o": "object"}
 
 
 def roles_of(roleset):
-    """'AB' -> (['A', 'B'], False); 'm:AC' -> (['A', 'C'], True)"""
-    multi = roleset.startswith("m:")
-    return list(roleset[2:] if multi else roleset), multi
+    """'AB' -> (['A', 'B'], False, None); 'm:AC' -> (['A', 'C'], True, None); 'o:AD' -> (['A', 'D'], False, 'object'); 'mo:AD' -> (['A', 'D'], True, 'object')"""
+    prefix, _, names = roleset.rpartition(":")
+    multi = prefix.startswith("m")
+    share = _SHARE_PREFIX.get(prefix[-1:]) if prefix else None
+    return list(names), multi, share
 
 
 def jobs(tier, seed):
@@ -129,6 +142,13 @@ def jobs(tier, seed):
                     nchunk = 2 if tier == "quick" else 4
                     for c in range(nchunk):
                         extra.append((ftype, unc, axes, v, tier, tuple(opts[c::nchunk]), "regular", MULTI_ROLESETS))
+            # two fits on one plot that share their model function (the same Python function / one model function object)
+            for unc in R.UNC_SHARED[ftype]:
+                for axes in R.axes_for(ftype, "zero", tier):
+                    opts = OPTS if tier == "quick" else OPTS_THOROUGH
+                    nchunk = 1 if tier == "quick" else 2
+                    for c in range(nchunk):
+                        extra.append((ftype, unc, axes, v, tier, tuple(opts[c::nchunk]), "regular", SHARE_ROLESETS[tier]))
     extra.sort(key=lambda s: (weight[s[0]], s[3]))
     return specs + extra
 
@@ -148,7 +168,10 @@ def bound(tier, seed):
         "a cost function object (second fit); "
         "MultiFit product: the plotted object is a MultiFit of two members {without, with} a parameter common to both x fit types {xy, "
         "indexed, histogram, unbinned} x member configurations {no source, y sources, y sources + one source declared on the MultiFit and "
-        "shared by the members (xy, indexed), Poisson likelihood, Poisson likelihood ratio} x %s"
+        "shared by the members (xy, indexed), Poisson likelihood, Poisson likelihood ratio} x %s; "
+        "model-function product: two fits of different data that use ONE model function {the same Python function handed to both, one model function "
+        "object handed to both%s} x fit types {xy, indexed, histogram, unbinned} x configurations {y sources, y sources + a parameter fixed at "
+        "different values (xy), Poisson likelihood; unbinned: none} x %s"
         % (
             "{none, y (two sources, one correlated), x+y (absolute and relative), x + y relative to the data only, Poisson nll, Gauss approximation + y source}"
             + ("" if tier == "quick" else " + {Poisson nll + y source, y with a fixed parameter}"),
@@ -157,6 +180,8 @@ def bound(tier, seed):
             (seed % 3) if tier == "quick" else "0,1,2",
             "linear axes" if tier == "quick" else "linear and fully logarithmic axes",
             "panels {ratio, residual, pull} on linear axes with two fits on the plot" if tier == "quick" else "the six single options x linear and fully logarithmic axes x one / two fits in both orders",
+            "the six options on linear axes" if tier == "quick" else "all 13 options x linear and fully logarithmic axes",
+            "; one object handed to both members of a plotted MultiFit" if tier == "quick" else ", both orders; either way as the members of a plotted MultiFit",
             "the six options on linear axes" if tier == "quick" else "all 13 options x linear and fully logarithmic axes",
         )
     )
@@ -422,9 +447,12 @@ def check_legend(rec, label, fig, worlds, asym):
         tag = "%s:legend:%s" % (label, w.role)
         fname = w.fn.__name__
         mine = [b for b in blocks if b["function"] == fname]
-        if not rec.truth(tag + ":block", len(mine) == 1, "one info block for %s" % fname, [b["function"] for b in blocks], ("legend", "block")):
+        # fits of the plot with a model function of that name (more than one when the fits share their model function): their
+        # blocks stand in the order of the fits
+        same = [x for x in worlds if x.fn.__name__ == fname]
+        if not rec.truth(tag + ":block", len(mine) == len(same), "%d info block(s) for %s" % (len(same), fname), [b["function"] for b in blocks], ("legend", "block")):
             continue
-        b = mine[0]
+        b = mine[[x is w for x in same].index(True)]
         names = list(fit.parameter_names)
         if not rec.truth(tag + ":par_names", [p["name"] for p in b["pars"]] == names, names, [p["name"] for p in b["pars"]], ("legend", "names")):
             continue
@@ -547,13 +575,14 @@ def execute(cfg):
     ftype, unc, axes, opt, roles, v = cfg["ftype"], cfg["unc"], cfg["axes"], cfg["opt"], cfg["roles"], cfg["v"]
     data = cfg.get("data", "regular")
     multi = bool(cfg.get("multi", False))
+    share = cfg.get("share")
     kw, separate = opt_kwargs(opt)
     rec.ops = 0
     try:
         # the minimizer base class print()s a warning whenever a Poisson likelihood is evaluated at a non-positive model
         with warnings.catch_warnings(), contextlib.redirect_stdout(io.StringIO()):
             warnings.simplefilter("ignore")
-            worlds = [R.World(ftype, unc, v, r, data) for r in roles]
+            worlds = R.build_worlds(ftype, unc, v, roles, data, share)
             mfit = R.make_multi(worlds, unc) if multi else None
             for w in worlds:
                 w.unit_ref = density_unit(w.role, v) if (ftype == "hist" and data != "regular") else None
@@ -566,7 +595,7 @@ def execute(cfg):
             if "asym" in opt.split("+"):
                 # asking a fit for asymmetric errors re-minimises it; the expectation is read from an identically
                 # built and fitted twin that is never plotted (the state 'after do_fit()' the statement speaks about)
-                twins = [R.World(ftype, unc, v, w.role, data) for w in worlds]
+                twins = R.build_worlds(ftype, unc, v, [w.role for w in worlds], data, share)
                 if multi:
                     tm = R.make_multi(twins, unc)
                     tm.do_fit()
@@ -648,7 +677,7 @@ _MEMO = {}
 
 
 def _fails(cfg, observable):
-    key = (cfg["ftype"], cfg["unc"], cfg["axes"], cfg["opt"], tuple(cfg["roles"]), cfg["v"], cfg.get("data", "regular"), bool(cfg.get("multi", False)))
+    key = (cfg["ftype"], cfg["unc"], cfg["axes"], cfg["opt"], tuple(cfg["roles"]), cfg["v"], cfg.get("data", "regular"), bool(cfg.get("multi", False)), cfg.get("share"))
     if key not in _MEMO:
         if not generated(cfg["ftype"], cfg["unc"], cfg["opt"], cfg.get("data", "regular")):
             _MEMO[key] = {}
@@ -666,11 +695,14 @@ def minimise(cfg, bad):
     obs = bad["observable"]
     cur, curbad = dict(cfg), bad
     role = None
-    for r in ("A", "B", "C"):
+    for r in ("A", "B", "C", "D"):
         if ("fit%s:" % r) in obs or (":legend:%s:" % r) in obs:
             role = r
     trials = []
     cur.setdefault("multi", False)
+    cur.setdefault("share", None)
+    if cur["share"] == "object":
+        trials.append(("share", "function"))  # the same fits, every one wraps the (same) Python function itself
     if cur["multi"] and cur["unc"] == "y+msh":
         pass  # the source declared on the MultiFit does not exist without it: neither the MultiFit nor a member is dropped
     elif len(cur["roles"]) > 1 and not obs.startswith("fig1") and not obs.startswith("fig0"):
@@ -703,6 +735,7 @@ def minimise(cfg, bad):
         t[dim] = val
         if dim == "roles":
             t["multi"] = False
+            t["share"] = None
         if dim == "unc" and val not in (R.UNC_MULTI if t["multi"] else R.UNC)[t["ftype"]]:
             continue
         if dim == "roles" and len(cur["roles"]) == 1:
@@ -714,6 +747,8 @@ def minimise(cfg, bad):
                 unc_done = True
     if not cur.get("multi"):
         cur.pop("multi", None)
+    if not cur.get("share"):
+        cur.pop("share", None)
     return cur, curbad
 
 
@@ -724,6 +759,8 @@ def sig_of(cfg, observable):
     fits = "".join(cfg["roles"])
     if cfg.get("multi", False):
         fits = "multi(%s)" % fits
+    if cfg.get("share"):
+        fits = "shared-%s(%s)" % (cfg["share"], fits)
     return "%s|unc=%s|axes=%s|opt=%s|fits=%s|%s" % (cfg["ftype"], unc, cfg["axes"], cfg["opt"], fits, observable)
 
 
@@ -738,20 +775,24 @@ def run_job(spec):
     worst = 0.0
     for opt in opts:
         for roleset in rolesets:
-            roles, multi = roles_of(roleset)
+            roles, multi, share = roles_of(roleset)
             if not generated(ftype, unc, opt, data):
                 res.facts["not-generated:pull-without-uncertainty"] += 1
                 continue
+            if multi and unc not in R.UNC_MULTI[ftype]:
+                continue  # (a member configuration the MultiFit product does not have)
             if "separate" in opt.split("+") and len(roles) == 1 and tier == "quick":
                 pass  # separate_figures with a single fit is still a legal call: kept (one figure expected)
             cfg = dict(ftype=ftype, unc=unc, axes=axes, opt=opt, roles=roles, v=v, data=data)
             if multi:
                 cfg["multi"] = True
+            if share:
+                cfg["share"] = share
             rec = execute(cfg)
             res.executions += 1
             res.transitions += getattr(rec, "ops", 0)
             res.evaluations += rec.n
-            key = (ftype, unc, axes, opt, tuple(roles), v) + ((data,) if data != "regular" else ()) + (("multi",) if multi else ())
+            key = (ftype, unc, axes, opt, tuple(roles), v) + ((data,) if data != "regular" else ()) + (("multi",) if multi else ()) + (("share:" + share,) if share else ())
             res.state(key)
             if getattr(rec, "nontrivial", False):
                 res.nontriv(key)
@@ -768,6 +809,8 @@ def run_job(spec):
             res.facts["opt:" + opt] += 1
             res.facts["nfits:%d" % len(roles)] += 1
             res.facts["plotted:" + ("multifit" if multi else "fits")] += 1
+            if len(roles) > 1:
+                res.facts["model-function-of-the-%s:" % ("members" if multi else "fits") + (share or "separate")] += 1
             if multi:
                 res.facts["multifit:" + ("common-parameter" if "C" in roles else "disjoint-parameters")] += 1
             res.max_depth = max(res.max_depth, len(roles))
@@ -815,6 +858,10 @@ def vacuity_guards(tot, tier):
         tot.facts.get(k, 0) > 0 for k in ("plotted:multifit", "multifit:common-parameter", "multifit:disjoint-parameters")
     )
     yield "MultiFit with a source shared by the members plotted", tot.facts.get("unc:y+msh", 0) > 0
+    yield "two fits on one plot with separate model functions, the same Python function and one shared model function object", all(
+        tot.facts.get("model-function-of-the-fits:" + k, 0) > 0 for k in ("separate", "function", "object")
+    )
+    yield "MultiFit whose members share one model function object plotted", tot.facts.get("model-function-of-the-members:object", 0) > 0
     oc = {k[:-1] for k in tot.outcomes if k[-1] == "ok"}
     need = [
         ("xy", "main", "ybar"), ("xy", "main", "xbar"), ("hist", "main", "bin_span"), ("xy", "main", "band"), ("xy", "ratio", "band"), ("xy", "residual", "band"),
